@@ -134,9 +134,12 @@ Definition io := (fs * list mut)%type.
 Definition emit (m : mut) (w : io) : io := (apply_mut (fst w) m, snd w ++ [m]).
 
 (* ---------- fs_log.go / fs_log_file.go ---------- *)
-Record fixes := mkFx { fx_drop : bool; fx_ro : bool; fx_guard : bool }.
-Definition unfixed := mkFx false false false.
-Definition repaired := mkFx true true true.
+(* fx_tsync: the proposed repair F25, an fsync after the ftruncate of logFile.Truncate; [repaired] is the code as
+   it stands after the F1/F2 fixes (no such fsync), [repaired_ts] has it *)
+Record fixes := mkFx { fx_drop : bool; fx_ro : bool; fx_guard : bool; fx_tsync : bool }.
+Definition unfixed := mkFx false false false false.
+Definition repaired := mkFx true true true false.
+Definition repaired_ts := mkFx true true true true.
 
 Record finfo := mkFi { fi_seq : N; fi_first : N }.
 Record curfile := mkCf { cf_seq : N; cf_empty : bool; cf_first : N; cf_last : N }.
@@ -315,7 +318,7 @@ Fixpoint offset_after (rs : list (record * N)) (k : N) (off : N) : option N :=
   end.
 
 (* logFile.Truncate *)
-Definition file_truncate (cur : curfile) (k : N) (w : io) : Z * curfile * io :=
+Definition file_truncate (fx : fixes) (cur : curfile) (k : N) (w : io) : Z * curfile * io :=
   if cf_last cur <=? k then (0%Z, cur, w) else
   match fs_get (fst w) (cf_seq cur) with
   | None => (1%Z, cur, w)
@@ -325,13 +328,14 @@ Definition file_truncate (cur : curfile) (k : N) (w : io) : Z * curfile * io :=
     match off with
     | None => (1%Z, cur, w)
     | Some o =>
-      let w' := emit (MTruncate (cf_seq cur) o) w in
+      let w0 := emit (MTruncate (cf_seq cur) o) w in
+      let w' := if fx_tsync fx then emit (MSync (cf_seq cur)) w0 else w0 in
       if k <? cf_first cur then (0%Z, mkCf (cf_seq cur) true 0 0, w')
       else (0%Z, mkCf (cf_seq cur) (cf_empty cur) (cf_first cur) k, w')
     end
   end.
 
-Definition log_truncate (l : fslog) (d : fs) (k : N) : Z * fslog * fs * list mut :=
+Definition log_truncate (fx : fixes) (l : fslog) (d : fs) (k : N) : Z * fslog * fs * list mut :=
   let l := refresh l in
   let keep := S (gfc l k) in
   let del := skipn keep (lg_files l) in
@@ -339,13 +343,13 @@ Definition log_truncate (l : fslog) (d : fs) (k : N) : Z * fslog * fs * list mut
   let files := firstn keep (lg_files l) in
   match del with
   | [] =>
-    let '(rc, cur, w2) := file_truncate (lg_cur l) k w1 in
+    let '(rc, cur, w2) := file_truncate fx (lg_cur l) k w1 in
     (rc, mkLog files cur (lg_max l), fst w2, snd w2)
   | _ =>
     match open_rw (last_seq files) w1 with
     | None => (1%Z, mkLog files (lg_cur l) (lg_max l), fst w1, snd w1)
     | Some (cur, w2) =>
-      let '(rc, cur', w3) := file_truncate cur k w2 in
+      let '(rc, cur', w3) := file_truncate fx cur k w2 in
       (rc, mkLog files cur' (lg_max l), fst w3, snd w3)
     end
   end.
@@ -553,9 +557,9 @@ Definition u_append (fx : fixes) (u : under) (d : fs) (recs : list (N * rle)) : 
   | UFs l => let '(rc, l', d', ms) := log_append fx l d recs in (rc, UFs l', d', ms)
   | UMem m => let '(rc, m') := mem_append m recs in (rc, UMem m', d, [])
   end.
-Definition u_truncate (u : under) (d : fs) (k : N) : Z * under * fs * list mut :=
+Definition u_truncate (fx : fixes) (u : under) (d : fs) (k : N) : Z * under * fs * list mut :=
   match u with
-  | UFs l => let '(rc, l', d', ms) := log_truncate l d k in (rc, UFs l', d', ms)
+  | UFs l => let '(rc, l', d', ms) := log_truncate fx l d k in (rc, UFs l', d', ms)
   | UMem m => (0%Z, UMem (mem_truncate m k), d, [])
   end.
 Definition u_trim (u : under) (d : fs) (k : N) : Z * under * fs * list mut :=
@@ -606,8 +610,8 @@ Definition st_max (s : state) : N := match st_under s with UFs l => lg_max l | U
 
 Definition step (os : option state) (op : list Z) : option state * list Z :=
   match op, os with
-  | [1; mode; maxsz; cap; f1; f2; f3]%Z, _ =>
-    let fx := mkFx (f1 =? 1)%Z (f2 =? 1)%Z (f3 =? 1)%Z in
+  | [1; mode; maxsz; cap; f1; f2; f3; f4]%Z, _ =>
+    let fx := mkFx (f1 =? 1)%Z (f2 =? 1)%Z (f3 =? 1)%Z (f4 =? 1)%Z in
     let c := if (2 <=? mode)%Z then Some (cache_new (Z.to_N cap)) else None in
     if (mode =? 0)%Z || (mode =? 2)%Z then
       let '(rc, ol, d, ms) := open_log fx (Z.to_N maxsz) [] in
@@ -625,7 +629,7 @@ Definition step (os : option state) (op : list Z) : option state * list Z :=
     | _ => (os, bad)
     end
   | [3; k]%Z, Some s =>
-    let '(rc, u, d, ms) := u_truncate (st_under s) (st_fs s) (Z.to_N k) in
+    let '(rc, u, d, ms) := u_truncate (st_fx s) (st_under s) (st_fs s) (Z.to_N k) in
     (Some (mkSt (st_fx s) u (c_reset (st_cache s)) d (st_fs s) ms), rc :: enc_muts ms ++ enc_query u)
   | [4; k]%Z, Some s =>
     let '(rc, u, d, ms) := u_trim (st_under s) (st_fs s) (Z.to_N k) in
